@@ -126,21 +126,50 @@ fn trace_json(o: &Outcome) -> serde_json::Value {
     })
 }
 
-/// Watchdog on a real OS thread (outside the simulation): abort the process when
-/// `beat` has not changed for `limit` seconds of wall clock -- e.g. a real lock
-/// held across a scheduling point blocks the one simulator thread for good.
+/// CPU time (user + system) of this process in clock ticks (100 per second on Linux).
+fn cpu_ticks() -> u64 {
+    let st = std::fs::read_to_string("/proc/self/stat").unwrap_or_default();
+    let rest = st.rsplit_once(')').map(|x| x.1).unwrap_or("");
+    let f: Vec<&str> = rest.split_whitespace().collect();
+    let g = |i: usize| f.get(i).and_then(|x| x.parse::<u64>().ok()).unwrap_or(0);
+    g(11) + g(12)
+}
+
+/// Watchdog on a real OS thread (outside the simulation).  `beat` changes with every run.
+/// A run is given up -- the process aborts, the supervisor re-runs that run alone -- when
+/// (a) for `limit` seconds of wall clock the process has used next to no CPU (< 5 %): the
+///     one simulator thread is blocked, e.g. on a real lock held by a descheduled task; or
+/// (b) the run has burnt `5 * limit` seconds of CPU: it spins without ever reaching a
+///     scheduling point (runs that do reach them are bounded by their step budget).
+/// Wall clock alone is not a criterion: on an overloaded machine a legitimate heavy run
+/// (a bulk input through the counter: millions of scheduling points) takes minutes.
 fn start_watchdog(beat: std::sync::Arc<std::sync::atomic::AtomicU64>, limit: u64) {
     std::thread::spawn(move || {
         let mut last = u64::MAX;
-        let mut since = std::time::Instant::now();
+        let mut cpu_at_beat = cpu_ticks();
+        let mut window: std::collections::VecDeque<(std::time::Instant, u64)> = std::collections::VecDeque::new();
         loop {
             std::thread::sleep(std::time::Duration::from_secs(1));
             let b = beat.load(std::sync::atomic::Ordering::Relaxed);
+            let now = std::time::Instant::now();
+            let cpu = cpu_ticks();
             if b != last {
                 last = b;
-                since = std::time::Instant::now();
-            } else if since.elapsed().as_secs() >= limit {
-                eprintln!("WATCHDOG: no progress for {limit}s (marker {b}), aborting");
+                cpu_at_beat = cpu;
+                window.clear();
+            }
+            window.push_back((now, cpu));
+            while window.len() > 2 && now.duration_since(window[1].0).as_secs() >= limit {
+                window.pop_front();
+            }
+            let (t0, c0) = window[0];
+            let wall = now.duration_since(t0).as_secs();
+            if wall >= limit && (cpu - c0) * 20 < wall * 100 {
+                eprintln!("WATCHDOG: no progress for {wall}s (blocked: {} ms of CPU in that time; marker {b}), aborting", (cpu - c0) * 10);
+                std::process::abort();
+            }
+            if cpu - cpu_at_beat >= limit * 5 * 100 {
+                eprintln!("WATCHDOG: no progress: one run has used {}s of CPU without ending (marker {b}), aborting", (cpu - cpu_at_beat) / 100);
                 std::process::abort();
             }
         }
